@@ -4,7 +4,9 @@ Import ListNotations.
 From Chiri Require Import Base.Bytes Base.Res Model.Tokenizer Model.TagParser Model.Finders Model.Markers
      Model.Format Model.Clean Spec.Scan Spec.Rename Spec.Simulation
      Proofs.TokenizerProofs Proofs.RenameProofs Proofs.C06Proofs Proofs.SimFlat Proofs.SimStrings
-     Model.ListRender Proofs.SimFront Proofs.SimClean Proofs.SimList.
+     Model.ListRender Spec.TagGrammar Proofs.SimFront Proofs.SimClean Proofs.SimList
+     Proofs.WellNested Proofs.DocMask Proofs.AstCollect Proofs.Idempotent Proofs.RespellBodies Proofs.RenameTags
+     Proofs.RenameClean.
 
 (** The full statement for delimiters (kept visible): one abstract document (texts and tag bodies,
     Spec/Rename.v) rendered with two spellings of the delimiters cleans to the two renderings of ONE
@@ -44,10 +46,10 @@ Print Assumptions C18_clean_two_spellings.
 (** Non-vacuity of the two theorems: an unwrap-block document (the run goes through the unwrap
     builder and the block dedenter, a tag survives) under "<!" ">" and "{{" "}}". *)
 Example C18_two_spellings_example :
-  a_clean ex_cfg ex_doc = Ok ex_out /\
-  0 < length ex_out /\ length ex_out < length (flat ex_doc) /\
-  clean ex_cfg [60;33]%N [62]%N (render [60;33]%N [62]%N ex_doc) = Ok (rs [60;33]%N [62]%N ex_out) /\
-  clean ex_cfg [123;123]%N [125;125]%N (render [123;123]%N [125;125]%N ex_doc) = Ok (rs [123;123]%N [125;125]%N ex_out).
+  a_clean SimClean.ex_cfg SimClean.ex_doc = Ok SimClean.ex_out /\
+  0 < length SimClean.ex_out /\ length SimClean.ex_out < length (flat SimClean.ex_doc) /\
+  clean SimClean.ex_cfg [60;33]%N [62]%N (render [60;33]%N [62]%N SimClean.ex_doc) = Ok (rs [60;33]%N [62]%N SimClean.ex_out) /\
+  clean SimClean.ex_cfg [123;123]%N [125;125]%N (render [123;123]%N [125;125]%N SimClean.ex_doc) = Ok (rs [123;123]%N [125;125]%N SimClean.ex_out).
 Proof. exact a_clean_example. Qed.
 
 (** PROVED for the listing functions (list and list_all, no [de_nb] needed): the line ranges and
@@ -82,20 +84,73 @@ Print Assumptions C18_list_two_spellings.
 
 (** Non-vacuity: a ready unwrap-block and a pending element; keys (first line, last line, ready). *)
 Example C18_list_example :
-  a_item_keys ex_cfg ex_doc2 = [(2, 3, true); (5, 6, true)] /\
-  a_item_keys_all ex_cfg ex_doc2 = [(2, 3, true); (5, 6, true); (7, 8, false)].
+  a_item_keys SimClean.ex_cfg ex_doc2 = [(2, 3, true); (5, 6, true)] /\
+  a_item_keys_all SimClean.ex_cfg ex_doc2 = [(2, 3, true); (5, 6, true); (7, 8, false)].
 Proof. split; vm_compute; reflexivity. Qed.
+
+(** PROVED for the TAG NAMES (Proofs/SimBody.v, RespellBodies.v, RenameTags.v, RenameClean.v), for
+    documents that are renderings of trees of structured tags (Spec/TagGrammar.v) without unwrap-block
+    elements: renaming the tag names by an injective [rho] - in every element tag ([rename_tast]:
+    "tl" -> rho "tl", "/tl" -> "/" ++ rho "tl") and in the configuration ([rename_cfg]) - commutes with
+    cleaning: the output of the renamed document has the same texts and the same sequence of tags,
+    each surviving element tag renamed ([P_any rho]: the tag printed with the renamed name), comment
+    tags unchanged.  Conditions on [rho]: on the names that occur (set D) it yields well-formed,
+    slash-free names, is injective, and the new names contain no delimiter byte. *)
+Theorem C18_clean_commutes_with_renaming_tag_names :
+  forall D rho cfg ds de f out,
+    admissible D rho -> cfg_ok D cfg -> tast_ok f -> names_in D f -> no_unwrap (to_ast f) ->
+    good_delims ds de ->
+    good_doc ds de (doc_of (to_ast f)) ->
+    (forall t, In t (openers_of f) -> disjoint_from ds de (rho (tg_name t))) ->
+    clean cfg ds de (render ds de (doc_of (to_ast f))) = Ok out ->
+    exists d d', out = render ds de d /\
+      clean (rename_cfg rho cfg) ds de (render ds de (doc_of (to_ast (rename_tast rho f)))) = Ok (render ds de d') /\
+      kinds_of d' = kinds_of d /\
+      texts_of d' = texts_of d /\
+      Forall2 (P_any rho) (tags_of d) (tags_of d').
+Proof. exact clean_rename_output. Qed.
+Print Assumptions C18_clean_commutes_with_renaming_tag_names.
+
+(** The general core: cleaning commutes with ANY respelling of the tag bodies that keeps the tree
+    and the removal decisions (trees without unwrap-block). *)
+Theorem C18_clean_commutes_with_respelling_of_tags :
+  forall (P : str -> str -> Prop) cfg cfg' ds de f f' out,
+    good_delims ds de ->
+    good_doc ds de (doc_of f) -> bodies_ok (doc_of f) -> Forall ast_ok f -> no_unwrap f ->
+    good_doc ds de (doc_of f') -> bodies_ok (doc_of f') -> Forall ast_ok f' -> no_unwrap f' ->
+    RespellBodies.same_tree P f f' ->
+    (forall b b', P b b' -> el_readyb cfg b = el_readyb cfg' b') ->
+    clean cfg ds de (render ds de (doc_of f)) = Ok out ->
+    exists g g', out = render ds de (doc_of g) /\
+                 clean cfg' ds de (render ds de (doc_of f')) = Ok (render ds de (doc_of g')) /\
+                 RespellBodies.same_tree P g g' /\ Forall ast_ok g /\ Forall ast_ok g'.
+Proof. exact clean_respell. Qed.
+Print Assumptions C18_clean_commutes_with_respelling_of_tags.
+
+(** Non-vacuity: a pending "tl" element containing a ready "rm" element, an unconfigured "div" and a
+    comment tag, renamed by tl -> time-limited, rm -> removal-marker, other names prefixed with "x-":
+    the decisions agree, the outputs are the renderings of a tree and of the renamed tree, and the OLD
+    configuration removes nothing from the renamed document. *)
+Example C18_renaming_example :
+  decisions RenameTags.ex_cfg (to_ast ex2_tast) = [false; true; false] /\
+  decisions (rename_cfg rho_ex RenameTags.ex_cfg) (to_ast (rename_tast rho_ex ex2_tast)) = [false; true; false] /\
+  clean RenameTags.ex_cfg id_ds id_de (render id_ds id_de (doc_of (to_ast ex2_tast))) =
+    Ok (render id_ds id_de (doc_of (to_ast ex2_out))) /\
+  clean (rename_cfg rho_ex RenameTags.ex_cfg) id_ds id_de
+        (render id_ds id_de (doc_of (to_ast (rename_tast rho_ex ex2_tast)))) =
+    Ok (render id_ds id_de (doc_of (to_ast (rename_tast rho_ex ex2_out)))).
+Proof.
+  split; [exact (proj1 ex2_decisions)|]. split; [exact (proj1 (proj2 ex2_decisions))|].
+  split; [exact ex2_first | exact ex2_second_computed].
+Qed.
 
 (** What is NOT proved: (1) the case of an end delimiter that begins with a blank when no line of
     blanks runs into it ([dedent_ok] rather than [de_nb]); (2) for the listing functions only the
     line ranges and statuses are compared (as the property says), not the highlighted text of the
-    items; (3) respelling of the TAG NAMES:
-    rewriting the configured tag names in the configuration and in every tag consistently (to names
-    that do not otherwise occur) yields the correspondingly rewritten output.  For (3) the proved
-    part is that a parsed tag depends on its body only and that names enter the decision only
-    through equality with the configured names (the `_partial` theorems below).  (1)-(3) are
-    validated differentially (metamorphic pairs over 18 delimiter spellings x 4 tag-name pairs, clean
-    and list) in the check of this property.  The older stage-wise theorems are kept below. *)
+    items; (3) respelling of the tag names for documents WITH unwrap-block elements and for the
+    listing functions.  (1)-(3) are validated differentially (metamorphic pairs over 18 delimiter
+    spellings x 11 tag-name pairs incl. names that are prefixes / suffixes of each other, clean and
+    list) in the check of this property.  The older stage-wise theorems are kept below. *)
 
 Theorem C18_tokens_are_the_items_partial :
   forall ds de doc ts,
